@@ -133,7 +133,7 @@ def elem_ty(f: Field):
     if k == 'e':
         return q + f.enum.name
     if k == 'o':
-        return f"Option<{q}{f.enum.name}>"
+        return f"{getattr(f, 'opt_path', '')}Option<{q}{f.enum.name}>"
     if k == 'c':
         return q + inner_name(f.inner_n)
     raise ValueError(k)
